@@ -17,13 +17,18 @@ EXTENDS Integers, Sequences, FiniteSets, TLC, Json
 CONSTANTS N,          \* number of named types: "a", "b" (, "c")
           KeySet,     \* e.g. {"k1", "k2"}
           MaxList,    \* max length of an allOf list
-          APs         \* additionalProperties settings explored, subset of {"absent","true","false","string","any"}
+          APs,        \* additionalProperties settings explored, subset of {"absent","true","false","string","any"}
+          Nest        \* BOOLEAN: may the value of an own key be an object that has an allOf list of its own?
 
 Names == IF N = 2 THEN {"a", "b"} ELSE {"a", "b", "c"}
 NameSeq == IF N = 2 THEN <<"a", "b">> ELSE <<"a", "b", "c">>
 
-\* own key lists: at most one key per object here (diamonds and overlaps come from inheritance), in two flavours
-OwnKeys == {<<>>} \cup {<<[k |-> k, opt |-> o]>> : k \in KeySet, o \in BOOLEAN}
+\* own key lists: at most one key per object here (diamonds and overlaps come from inheritance), in two flavours.
+\* The value of the key is a scalar (sub = <<>>) or, with Nest, the object { // {allOf: "@x"} "n": 0 } (sub = <<x>>):
+\* an heir below an heir, whose own list has to be merged as well.
+Subs == {<<>>} \cup (IF Nest THEN {<<x>> : x \in Names} ELSE {})
+OwnKeys == {<<>>} \cup {<<[k |-> k, opt |-> o, sub |-> s]>> : k \in KeySet, o \in BOOLEAN, s \in Subs}
+NestedObj(e) == [kind |-> "object", own |-> <<[k |-> "n", opt |-> FALSE, sub |-> <<>>]>>, allOf |-> e.sub, ap |-> "absent"]
 Lists == {<<>>} \cup {<<x>> : x \in Names} \cup
          (IF MaxList >= 2 THEN {<<pr[1], pr[2]>> : pr \in {q \in Names \X Names : q[1] # q[2]}} ELSE {})
 Objects == {[kind |-> "object", own |-> o, allOf |-> l, ap |-> p] : o \in OwnKeys, l \in Lists, p \in APs}
@@ -51,24 +56,34 @@ Parents(o) == {o.allOf[i] : i \in 1..Len(o.allOf)}
 RECURSIVE Anc(_, _)
 Anc(S, k) == IF k = 0 THEN S ELSE Anc(S \cup UNION {IF D(n).kind = "object" THEN Parents(D(n)) ELSE {} : n \in S}, k - 1)
 Ancestors(o) == Anc(Parents(o), N)              \* all names reachable through allOf lists
-AllObjects == {root} \cup {D(n) : n \in {m \in Registered : D(m).kind = "object"}}
+NestedOf(o) == {NestedObj(o.own[i]) : i \in {j \in 1..Len(o.own) : o.own[j].sub # <<>>}}
+TopObjects == {root} \cup {D(n) : n \in {m \in Registered : D(m).kind = "object"}}
+AllObjects == TopObjects \cup UNION {NestedOf(o) : o \in TopObjects}
+\* what a type needs to be complete: the types it lists and the types its nested heirs list
+Needs(o) == Parents(o) \cup UNION {Parents(x) : x \in NestedOf(o)}
+RECURSIVE Dep(_, _)
+Dep(S, k) == IF k = 0 THEN S ELSE Dep(S \cup UNION {IF D(n).kind = "object" THEN Needs(D(n)) ELSE {} : n \in S}, k - 1)
 
 \* ---- refusal classes (over the root and every registered type)
 Missing   == \E o \in AllObjects : \E n \in Ancestors(o) : D(n).kind = "withheld"
 NonObject == \E o \in AllObjects : \E n \in Ancestors(o) : D(n).kind = "scalar"
-Cyclic    == \E n \in Registered : D(n).kind = "object" /\ n \in Ancestors(D(n))
+Cyclic    == \E n \in Registered : D(n).kind = "object" /\ n \in Dep(Needs(D(n)), N)
 
 \* merged key list, defined when none of the three above applies (depth bounded by N+1)
+\* an entry of a merged list: key, optional flag, and the merged key names of the value if it is a nested heir
 RECURSIVE MergeD(_, _)
 MergeD(o, depth) ==
-  IF depth = 0 THEN o.own
-  ELSE LET inh(i) == LET p == o.allOf[i] IN
-                       [j \in 1..Len(MergeD(D(p), depth - 1)) |->
-                           [k |-> MergeD(D(p), depth - 1)[j].k, opt |-> MergeD(D(p), depth - 1)[j].opt]]
-           RECURSIVE Cat(_)
-           Cat(i) == IF i > Len(o.allOf) THEN <<>> ELSE inh(i) \o Cat(i + 1)
-       IN o.own \o Cat(1)
-Merge(o) == MergeD(o, N + 1)
+  LET KeysOf(s) == [j \in 1..Len(s) |-> s[j].k]
+      own == [i \in 1..Len(o.own) |->
+                [k |-> o.own[i].k, opt |-> o.own[i].opt,
+                 nk |-> IF o.own[i].sub = <<>> THEN <<>>
+                        ELSE IF depth = 0 THEN <<"n">> ELSE KeysOf(MergeD(NestedObj(o.own[i]), depth - 1))]]
+  IN IF depth = 0 THEN own
+     ELSE LET inh(i) == MergeD(D(o.allOf[i]), depth - 1)
+              RECURSIVE Cat(_)
+              Cat(i) == IF i > Len(o.allOf) THEN <<>> ELSE inh(i) \o Cat(i + 1)
+          IN own \o Cat(1)
+Merge(o) == MergeD(o, N + 2)
 HasDup(s) == \E i, j \in 1..Len(s) : i # j /\ s[i].k = s[j].k
 Structural == Missing \/ NonObject \/ Cyclic
 Duplicate == ~Structural /\ \E o \in AllObjects : HasDup(Merge(o))
@@ -97,12 +112,20 @@ OriginD(o, name, depth) ==      \* sequence parallel to MergeD(o, depth): [via, 
 \* an accepted project has no duplicate key in any merged object
 MergeHasNoDuplicateKeys == (done /\ Accepted) => \A o \in AllObjects : ~HasDup(Merge(o))
 \* merging is insensitive to the depth bound once it exceeds the longest chain
-MergeStable == (done /\ ~Structural) => MergeD(root, N + 1) = MergeD(root, N + 2)
+MergeStable == (done /\ ~Structural) => MergeD(root, N + 2) = MergeD(root, N + 3)
 \* an object without an allOf list keeps exactly its own keys
-NoListNoChange == (done /\ ~Structural /\ root.allOf = <<>>) => Merge(root) = root.own
+NoListNoChange == (done /\ ~Structural /\ root.allOf = <<>>) =>
+                     /\ Len(Merge(root)) = Len(root.own)
+                     /\ \A i \in 1..Len(root.own) : Merge(root)[i].k = root.own[i].k /\ Merge(root)[i].opt = root.own[i].opt
+\* a nested heir always keeps its own key first and gains exactly the merged keys of the listed type
+NestedHeirGains == (done /\ ~Structural) =>
+                     \A i \in 1..Len(root.own) : root.own[i].sub # <<>> =>
+                         LET nk == Merge(root)[i].nk m == Merge(D(root.own[i].sub[1])) IN
+                         /\ nk[1] = "n" /\ Len(nk) = 1 + Len(m)
+                         /\ \A j \in 1..Len(m) : nk[j + 1] = m[j].k
 
 Emit == done => PrintT(ToJson([types |-> [i \in 1..N |-> [name |-> NameSeq[i], d |-> def[i]]], root |-> root,
                                refusals |-> Refusals,
                                keys |-> IF Structural THEN <<>> ELSE Merge(root),
-                               origin |-> IF Structural THEN <<>> ELSE OriginD(root, "root", N + 1)]))
+                               origin |-> IF Structural THEN <<>> ELSE OriginD(root, "root", N + 2)]))
 ===============================================================================
